@@ -566,24 +566,24 @@ theorem temperature_grid_inclusive (tmin step : ℝ) (n : ℕ) (h0 : 0 ≤ tmin)
 run (zeroing of the malloc'd `tp`, the q-point / temperature / band loops with the `T > 0 && f > cutoff` test,
 the serial reduction into `thermal_props`) adds to `thermal_props[3j + c]` exactly the model sum
 `cSum g_c` of `Model/Thermal.lean` — for every number of temperatures, q-points and bands, every input
-array, and whatever the uninitialised contents of `tp` and `f` were; cells beyond `3·num_temp` are untouched. -/
+array, and whatever the uninitialised contents of the malloc'd buffer were; cells beyond `3·num_temp` are untouched. -/
 theorem loop_eq_model (E : ThermalEnv ℝ) (props0 temps freqs weights : Nat → ℝ) (nt nq nb : Nat) (cut : ℝ)
-    (cl : Int) (tp0 : Nat → ℝ) (f0 : ℝ) :
+    (cl : Int) (tp0 : Nat → ℝ) :
     (∀ j, j < nt →
-      ThermalC.phpy_get_thermal_properties E props0 temps freqs weights nt nq nb cut cl tp0 f0 (j * 3 + 0)
+      ThermalC.phpy_get_thermal_properties E props0 temps freqs weights nt nq nb cut cl tp0 (j * 3 + 0)
         = props0 (j * 3 + 0) + cSum (ThermalC.get_free_energy E) cl (fun q : Fin nq => weights q)
             (fun (q : Fin nq) (k : Fin nb) => freqs (q * nb + k)) cut (temps j) ∧
-      ThermalC.phpy_get_thermal_properties E props0 temps freqs weights nt nq nb cut cl tp0 f0 (j * 3 + 1)
+      ThermalC.phpy_get_thermal_properties E props0 temps freqs weights nt nq nb cut cl tp0 (j * 3 + 1)
         = props0 (j * 3 + 1) + cSum (ThermalC.get_entropy E) cl (fun q : Fin nq => weights q)
             (fun (q : Fin nq) (k : Fin nb) => freqs (q * nb + k)) cut (temps j) ∧
-      ThermalC.phpy_get_thermal_properties E props0 temps freqs weights nt nq nb cut cl tp0 f0 (j * 3 + 2)
+      ThermalC.phpy_get_thermal_properties E props0 temps freqs weights nt nq nb cut cl tp0 (j * 3 + 2)
         = props0 (j * 3 + 2) + cSum (ThermalC.get_heat_capacity E) cl (fun q : Fin nq => weights q)
             (fun (q : Fin nq) (k : Fin nb) => freqs (q * nb + k)) cut (temps j)) ∧
     (∀ m, nt * 3 ≤ m →
-      ThermalC.phpy_get_thermal_properties E props0 temps freqs weights nt nq nb cut cl tp0 f0 m = props0 m) := by
-  refine ⟨fun j hj => ⟨?_, ?_, ?_⟩, fun m hm => proc_frame E temps freqs weights nt nq nb cut cl props0 tp0 f0 hm⟩
+      ThermalC.phpy_get_thermal_properties E props0 temps freqs weights nt nq nb cut cl tp0 m = props0 m) := by
+  refine ⟨fun j hj => ⟨?_, ?_, ?_⟩, fun m hm => proc_frame E temps freqs weights nt nq nb cut cl props0 tp0 hm⟩
   all_goals
-    rw [proc_cell E temps freqs weights nt nq nb cut cl props0 tp0 f0 hj (by omega)]
+    rw [proc_cell E temps freqs weights nt nq nb cut cl props0 tp0 hj (by omega)]
     congr 1
     unfold cSum
     rw [sumFin_eq, Finset.sum_range]
